@@ -229,3 +229,17 @@ func HarnessC01RunScript() {
 		verifCheck(e.Line >= 1 && e.Column >= 1, "diagnostic-position-positive")
 	}
 }
+
+// HarnessC01Cron: the schedule check (robfig/cron's parser is interpreted from
+// source) on a fully symbolic cron specification behind a concrete prefix.
+func HarnessC01Cron(L int, prefix int) {
+	pre := []string{"", "TZ=", "CRON_TZ=", "@", "@every ", "TZ=U ", "* * * * "}[prefix]
+	spec := pre + verifSymString("spec", L)
+	rule := NewRuleEvents()
+	rule.checkCron(&String{Value: spec, Pos: &Pos{1, 1}})
+	for _, e := range rule.Errs() {
+		verifReach("reported")
+		verifCheck(verifNot(verifMsgHasRawNewline(e.Message)), "raw-line-break-in-message")
+	}
+	verifReach("checked")
+}
